@@ -257,15 +257,17 @@ Proof.
   - intros k Hk. destruct k as [|[|k]]; try lia; vm_compute; discriminate.
 Qed.
 
-(* make_dp: constrained variable 0, sqrt supplied exactly for the ratio 2/3 -> not rational; use a matrix whose ratio is 4/9 *)
+(* make_dp: S = [[1,7],[7,1]] = 4 (1,1)(1,1)' - 3 (1,-1)(1,-1)'; truncated to 4 (1,1)(1,1)'; constrained variables:
+   norme1 = sqrt(1/4) = 1/2, the result is [[1,1],[1,1]]: PSD with the original diagonal *)
 Example C17_makedp_nonvacuous :
-  let S := fun i j : nat => match i, j with O, O => 4 # 9 | 1%nat, 1%nat => 4 # 9 | _, _ => 8 # 9 end in
-  let lam := fun k : nat => match k with O => 2 # 3 | _ => -(2 # 9) end in
-  let sq := fun q : Q => if Qeq_bool q (4 # 9) then 2 # 3 else 1 in
+  let S := fun i j : nat => if Nat.eqb i j then 1 else 7 in
+  let lam := fun k : nat => match k with O => 4 | _ => -(3) end in
+  let sq := fun q : Q => if Qeq_bool q (1 # 4) then 1 # 2 else 1 in
   let cons := fun i : nat => Some 1 in
   fst (make_dp sq 2 (1 # 1000000000000) cons S lam ex_V) = false /\
-  Qeq_bool (ftrunc 2 lam ex_V 0%nat 0%nat) (2 # 3) = false /\
-  Qeq_bool (snd (make_dp sq 2 (1 # 1000000000000) cons S lam ex_V) 0%nat 1%nat) (2 # 3 * 1 * 1) = true.
+  Qeq_bool (ftrunc 2 lam ex_V 0%nat 0%nat) 4 = true /\
+  Qeq_bool (snd (make_dp sq 2 (1 # 1000000000000) cons S lam ex_V) 0%nat 0%nat) 1 = true /\
+  Qeq_bool (snd (make_dp sq 2 (1 # 1000000000000) cons S lam ex_V) 0%nat 1%nat) 1 = true.
 Proof. vm_compute. repeat split; reflexivity. Qed.
 
 (* Goulard: two structures, two variables, three lags, an oracle that answers with the decomposition along (1,1),(1,-1) *)
@@ -296,14 +298,37 @@ Example C17_bounds_step_nonvacuous :
   Qeq_bool (fst b) (-(1 # 4)) = true /\ Qeq_bool (snd b) (1 # 2) = true.
 Proof. vm_compute. split; reflexivity. Qed.
 
-(* constraints: an equality on the range of structure 1 lands on that parameter only *)
+(* constraints: an equality on the range of structure 1 and an upper bound on the third parameter of structure 2
+   land on those two parameters only; the anisotropy range of structure 1 keeps the default lower bound hmax/1e6 *)
+Definition oqb (a : option Q) (v : Q) : bool := match a with Some x => Qeq_bool x v | None => false end.
+Definition onone (a : option Q) : bool := match a with Some _ => false | None => true end.
 Example C17_constraints_nonvacuous :
   let o := mkO false true true true false false false false false false in
   let chars := [mkC 0 false None true false; mkC 1 false None false false; mkC 1 true (Some 2) false false] in
   let ps := parid_alloc o 2 1 chars in
   let d := mkD 10 [1] [0; 0] 2 3 in
   let items := [mkI 0 1 E_RANGE 0 0 T_EQUAL (Some 3); mkI 0 2 E_PARAM 0 0 T_UPPER (Some (3 # 2))] in
-  map parid_encode ps = [2600; 2650; 5100; 5150; 5200; 7650; 7550; 7600; 7700]%Z /\
-  map (fun t => snd t) (bounds_of d chars items ps) = [Some 3; None; None; Some (3 # 2); None; None] /\
-  nth 0 (bounds_of d chars items ps) (None, None, None) = (Some 3, Some 3, Some 3).
-Proof. vm_compute. Abort.
+  let bs := bounds_of d chars items ps in
+  map parid_encode ps = [127500; 127550; 130000; 257500; 252500; 252550; 255000]%Z /\
+  map (fun t => oqb (snd (fst t)) 3 && oqb (snd t) 3) bs = [true; false; false; false; false; false; false] /\
+  map (fun t => oqb (snd t) (3 # 2)) bs = [false; false; false; true; false; false; false] /\
+  map (fun t => oqb (snd (fst t)) (1 # 100000) && onone (snd t)) bs = [false; true; false; false; true; true; false] /\
+  map (fun t => onone (snd (fst t)) && onone (snd t)) bs = [false; false; true; false; false; false; true].
+Proof. vm_compute. repeat split; reflexivity. Qed.
+
+(* options: three directions in 2-D keep the rotation, two directions lock it; isotropy drops ranges and angles *)
+Example C17_options_nonvacuous :
+  let o := mkO false true true true false false false false false false in
+  let chars := [mkC 0 false None true false; mkC 1 false None false false; mkC 1 true (Some 2) false false] in
+  (match alter_optvar 2 3 [] 1 false false o with Some o' => o_rot o' | None => false end) = true /\
+  (match alter_optvar 2 2 [] 1 false false o with Some o' => o_rot o' | None => true end) = false /\
+  alter_optvar 2 3 [] 2 true false o = None /\
+  length (parid_alloc o 2 1 chars) = 7%nat /\
+  length (parid_alloc (set_rot o false) 2 1 chars) = 5%nat /\
+  length (parid_alloc (set_aniso o false) 2 1 chars) = 3%nat.
+Proof. vm_compute. repeat split; reflexivity. Qed.
+
+Example C17_ranges_nonvacuous :
+  ranges_of 1 [mkP 0 1 E_RANGE 0 0; mkP 0 1 E_RANGE 1 0; mkP 0 2 E_RANGE 0 0] [5; 2; 9] [1; 1] = [5; 2] /\
+  ranges_of 2 [mkP 0 1 E_RANGE 0 0; mkP 0 1 E_RANGE 1 0; mkP 0 2 E_RANGE 0 0] [5; 2; 9] [1; 1] = [9; 9].
+Proof. vm_compute. split; reflexivity. Qed.
